@@ -610,3 +610,36 @@ def member_instances(shape, moore, plus_one, objective, seeds):
         else:
             out.append(core.res(name, 'holds', sample=sample, nontrivial=True, functions=FUNCS[objective]))
     return out
+
+
+def game_instances(objective, seeds):
+    """Closed-loop obligations by enumeration on seeded *integer* games and table members with all four qinit forms
+    and environment initial conditions other than the winning region (instance set of C12)."""
+    import contextlib
+    import io
+    from vlib.props import c12
+    out = []
+    for seed in seeds:
+        c = c12.make_case(seed)
+        if c['kind'] == 'hand':
+            continue
+        c['objective'] = objective
+        with contextlib.redirect_stdout(io.StringIO()):
+            aut, desc = c12.build_case(c)
+        if aut is None:
+            continue
+        name = f'{objective}-impl game #{seed} {c["kind"]} qinit={c["qinit"]} moore={c["moore"]} plus_one={c["plus_one"]}'
+        sample = dict(case=c, game=desc)
+        if objective == 'streett':
+            mem, mem_init = ['_goal'], {'_goal': 0}
+        else:
+            mem, mem_init = ['_hold', '_goal'], {'_hold': len(aut.win['<>[]']), '_goal': 0}
+        found = check_concrete(aut, aut._verif_z, objective, mem, mem_init)
+        if found:
+            ob, why = found[0]
+            out.append(core.res(name, 'violation', sample=sample, nontrivial=True, functions=FUNCS[objective],
+                                signature=(f'{objective}-impl:{ob}' if ob == 'nonblock-stale-hold' else f'{objective}-impl:{ob}:game'),
+                                detail=f'{desc}: {ob}: {why}', cex=dict(kind='game', seed=seed, objective=objective)))
+        else:
+            out.append(core.res(name, 'holds', sample=sample, nontrivial=True, functions=FUNCS[objective]))
+    return out
